@@ -16,6 +16,7 @@ import (
 	"github.com/Factom-Asset-Tokens/factom"
 	"github.com/pegnet/pegnetd/fat/fat2"
 	"github.com/pegnet/pegnetd/node"
+	"github.com/pegnet/pegnetd/node/pegnet"
 )
 
 func faultActs() Acts {
@@ -179,8 +180,11 @@ func scenFaults(rep *Report, tier string, seed int64) {
 	r := rand.New(rand.NewSource(seed))
 	g := NewGen(seed, 4, 1)
 	s := Setup{Acts: faultActs(), AvgPeriod: 8, SyncVersion: mainnetSyncVersion}
-	tip := uint32(152)
-	rich := func(h uint32) bool { return h <= 26 || h >= 141 }
+	// the chain runs past the SECOND snapshot height: the first one that pays staking rewards (the
+	// rotation at the first has an empty past snapshot, nobody is eligible whatever happens to it)
+	snap2 := uint32(2 * pegnet.SnapshotRate)
+	tip := snap2 + 2
+	rich := func(h uint32) bool { return h <= 26 || (h >= 141 && h <= 152) || h+4 >= snap2 }
 	ref, ok := buildFaultReference(rep, s, g, dir, tip, rich)
 	if !ok {
 		return
@@ -190,10 +194,10 @@ func scenFaults(rep *Report, tier string, seed int64) {
 	// averages: the in-memory cache is then a consensus input a failed attempt must not disturb)
 	// (the block after the bank-table activation and the last bank-era block execute the PEG
 	// requests pending across those boundaries: the bank row is read and written there)
-	targets := []uint32{s.Acts.DevRewards, s.Acts.V202, s.Acts.PIP10 + 1, s.Acts.PIP10 + 2, s.Acts.V4 + 1, s.Acts.V20 - 1}
+	targets := []uint32{s.Acts.DevRewards, s.Acts.V202, s.Acts.PIP10 + 1, s.Acts.PIP10 + 2, s.Acts.V4 + 1, s.Acts.V20 - 1, snap2}
 	pool := []uint32{}
 	for h := uint32(5); h <= tip-2; h++ {
-		if rich(h) && h != s.Acts.DevRewards && h != s.Acts.V202 && h != s.Acts.PIP10+1 && h != s.Acts.PIP10+2 && h != s.Acts.V4+1 && h != s.Acts.V20-1 {
+		if rich(h) && h != s.Acts.DevRewards && h != s.Acts.V202 && h != s.Acts.PIP10+1 && h != s.Acts.PIP10+2 && h != s.Acts.V4+1 && h != s.Acts.V20-1 && h != snap2 {
 			pool = append(pool, h)
 		}
 	}
@@ -258,7 +262,13 @@ func scenFaults(rep *Report, tier string, seed int64) {
 		pick := map[int]bool{}
 		seenPath := map[string]bool{}
 		for n := 1; n <= nst; n++ {
-			if pth := stmts[n-1].Path + "|" + stmts[n-1].Kind; !seenPath[pth] {
+			// (statements of one function that differ in their text are different sites: a function
+			// that runs four statements in a row has four places to mishandle an error)
+			text := stmts[n-1].SQL
+			if len(text) > 28 {
+				text = text[:28]
+			}
+			if pth := stmts[n-1].Path + "|" + stmts[n-1].Kind + "|" + text; !seenPath[pth] {
 				seenPath[pth] = true
 				pick[n] = true
 			}
